@@ -139,6 +139,22 @@ def one_exit(cs, r):
     return (g, p, o, held)
 
 
+def door_on_the_way(r):
+    """a wall across the world with ONE door in it (shut, or locked with the matching key in hand), the exit beyond, the agent in front of the door
+    and facing it: whether the door is open decides every walking distance -- what is remembered about a layout must follow the door"""
+    T = gen.TY
+    h, w = r.choice([(3, 3), (3, 4), (4, 4), (2, 5), (4, 3)])
+    col = r.choice(gen.COLORS[1:])
+    x = r.randrange(1, w - 1)
+    y = r.randrange(h)
+    locked = r.random() < 0.5
+    g = tuple(tuple((gen.WALL if yy != y else (T['Door'], 2 if locked else 1, col, None)) if xx == x else gen.FLOOR for xx in range(w)) for yy in range(h))
+    side = r.choice([-1, 1])
+    ex = [(yy, xx) for yy in range(h) for xx in range(w) if (xx - x) * side > 0]
+    g = gen.set_cell(g, r.choice(ex), (T['Exit'], 0, 0, None))
+    return (g, (y, x - side), 3 if side == 1 else 2, (T['Key'], 0, col, None) if locked else gen.NONE)
+
+
 def histories(ctx):
     r = ctx.rng
     shipped = [(name, factory_env_from_data(copy.deepcopy(data)), desc) for name, data, desc in envs.shipped_envs()]
@@ -155,6 +171,8 @@ def histories(ctx):
             else:
                 # a dense interactive world (doors are the objects mutated in place) under all seven dynamics, every type declared
                 cs = one_exit(tsuite.interactive_world(r), r)
+                if r.random() < 0.3:
+                    cs = door_on_the_way(r)
                 if gen.shape_of(cs[0]) == (3, 3) and r.random() < 0.6 and cs[0][2][1][0] not in (gen.TY['Wall'], gen.TY['Box'], gen.TY['Exit']) and not (cs[0][2][1][0] == gen.TY['Door'] and cs[0][2][1][1] != 0):
                     cs = (cs[0], (2, 1), 0, cs[3])          # aligned with the 3x3 view: on its anchor cell, facing FORWARD
                 label, env, desc = interactive_env(gen.shape_of(cs[0]), r)
@@ -178,6 +196,8 @@ def histories(ctx):
                     hist.append('scramble a copy')
                 a = r.choice(desc['actions']) if label != 'interactive' else r.randrange(8)
                 a = r.choice([0, 0, 6, 6, 7, a])
+                if label == 'interactive' and _t == 0 and r.random() < 0.5:
+                    a = 6          # the first thing done in front of a door: ACTUATE
                 if a not in desc['actions']:
                     a = r.choice(desc['actions'])
                 # observation of the current state: pure, no shared containers, repeatable
